@@ -216,6 +216,7 @@ pub fn run(ctx: &Ctx, rep: &mut Report) {
         let ix = SchemaIx::new(&schema);
         let mut oo = OpOpts::standard();
         oo.max_ops = 3;
+        oo.shared_names = true;
         let Some(doc) = gen_valid_doc(&mut rng, &ix, &oo) else {
             rep.count("generator_gave_up");
             continue;
